@@ -88,7 +88,7 @@ pub fn cosine_scalar(a: &[f32], b: &[f32]) -> f32 {
         norm_b += y * y;
     }
 
-    let norm_product = (norm_a * norm_b).sqrt();
+    let norm_product = norm_a.sqrt() * norm_b.sqrt();
     if norm_product == 0.0 {
         return 1.0;
     }
@@ -276,7 +276,7 @@ pub unsafe fn cosine_avx2(a: &[f32], b: &[f32]) -> f32 {
         i += 1;
     }
 
-    let norm_product = (norm_a * norm_b).sqrt();
+    let norm_product = norm_a.sqrt() * norm_b.sqrt();
     if norm_product == 0.0 {
         return 1.0;
     }
@@ -350,7 +350,7 @@ pub unsafe fn cosine_neon(a: &[f32], b: &[f32]) -> f32 {
         i += 1;
     }
 
-    let norm_product = (norm_a * norm_b).sqrt();
+    let norm_product = norm_a.sqrt() * norm_b.sqrt();
     if norm_product == 0.0 {
         return 1.0;
     }
